@@ -380,7 +380,7 @@ def rule_destroy(S):
              for n in g.all_nodes())
     d2 = any(n['k'] == 'CXXDeleteExpr' for g in lam2 + [idd] for n in g.all_nodes())
     plus1 = any(x['k'] == 'BinaryOperator' and x.get('op') == '+' and
-                any(y['k'] == 'MemberExpr' and y.get('name') == 'n_keys_' for y in idd.walk(x))
+                any(y['k'] == 'MemberExpr' and y.get('name') == R.field_of(facts, Y + 'interior_node', 'std::atomic<unsigned char>', 'key count') for y in idd.walk(x))
                 for b, blk in idd.blocks.items() if blk.term and 'cond' in blk.term and blk.term.get('k') == 'ForStmt'
                 for x in idd.walk(blk.term['cond']))
     S.ob('R-DESTROY', idd.qname, 'every child', d1 and d2 and plus1,
